@@ -1,7 +1,9 @@
 package main
 
 import (
+	"fmt"
 	"go/types"
+	"os"
 	"sort"
 	"strings"
 
@@ -190,6 +192,78 @@ func propMWU(a *Analysis, r *Registry, which string) {
 				anchorFail("tie-group loop body not found")
 			}
 			b.Eq("B-C01 rank-pass", name+"/tie-loop-condition", b.pos(fn), pfc.ReachCondFrom(ph.Block(), body), env, "iI<len(merged) && merged[iI]==merged[iO]")
+		})
+		// labeledMerge is given SORTED data (it merges, it does not sort): each of its two arguments
+		// is handed to a sort of float64s (sort.Float64s / slices.Sort) on a way that dominates the
+		// merge — and is a copy, not the caller's slice (engine A decides the no-mutation part)
+		b.guard(rB, name+"/merge-inputs-sorted", func() {
+			var mc *ssa.Call
+			var mfc *FC
+			for _, sfc := range fc0.BoundCallees(1) {
+				for _, c := range sfc.CallsTo("stats.labeledMerge") {
+					mc, mfc = c, sfc
+				}
+			}
+			if mc == nil {
+				anchorFail("no call of labeledMerge")
+			}
+			for k := 0; k < 2; k++ {
+				arg := mfc.Val(mc.Call.Args[k])
+				sorted := false
+				for _, sc := range mfc.CallsTo("sort.Float64s") {
+					if mfc.Val(sc.Call.Args[0]).Equal(arg) && mfc.Ctx.Dominates(sc.Block(), mc.Block()) {
+						sorted = true
+					}
+				}
+				// … or through the interface: sort.Sort(sort.Float64Slice(s))
+				for _, sc := range mfc.CallsTo("sort.Sort") {
+					sv := sc.Call.Args[0]
+					if mi, ok := sv.(*ssa.MakeInterface); ok {
+						sv = mi.X
+					}
+					if ct, ok := sv.(*ssa.ChangeType); ok && ct.Type().String() == "sort.Float64Slice" {
+						sv = ct.X
+					} else {
+						continue
+					}
+					if mfc.Val(sv).Equal(arg) && mfc.Ctx.Dominates(sc.Block(), mc.Block()) {
+						sorted = true
+					}
+				}
+				// … or it is what a helper of the module returns after sorting it (sortedCopy(x))
+				if hc, isCall := mc.Call.Args[k].(*ssa.Call); isCall && !sorted {
+					if hf := hc.Call.StaticCallee(); hf != nil && hf.Blocks != nil && a.W.IsLibFunc(hf) && hf.Signature.Results().Len() == 1 {
+						hfc := X.FCFor(hf)
+						rets := hfc.Ctx.Returns()
+						all := len(rets) > 0
+						for _, rt := range rets {
+							okr := false
+							for _, sc := range hfc.CallsTo("sort.Float64s") {
+								if hfc.Val(sc.Call.Args[0]).Equal(hfc.Val(rt.Results[0])) && hfc.Ctx.Dominates(sc.Block(), rt.Block()) {
+									okr = true
+								}
+							}
+							// (an already sorted input may be handed back as it is)
+							if !okr && hfc.HoldsAt(rt.Block(), S.MakeFn("sort.Float64sAreSorted", hfc.Val(rt.Results[0]))) {
+								okr = true
+							}
+							if !okr {
+								all = false
+							}
+						}
+						sorted = all
+					}
+				}
+				tag := name + "/merge-inputs-sorted/x" + itoa(k+1)
+				if os.Getenv("GMSA_DEBUG_C01") != "" {
+					fmt.Fprintf(os.Stderr, "C01 arg%d=%s\n", k+1, clip(arg.String(), 200))
+				}
+				if sorted {
+					r.OK(rB, tag, a.W.InstrPos(mc), "sorted before the merge")
+				} else {
+					r.Fail(rB, tag, a.W.InstrPos(mc), "argument "+itoa(k+1)+" of labeledMerge is not sorted on every way to the merge: the ranks are those of an unsorted sequence")
+				}
+			}
 		})
 		// the rank pass goes on exactly while samples are left (a pass that stops early, or never
 		// starts, leaves ranks unassigned: R1 too small)
